@@ -1,8 +1,6 @@
 package sim
 
 import (
-	"syscall"
-	"unsafe"
 	"encoding/json"
 	"errors"
 	"fmt"
@@ -13,7 +11,9 @@ import (
 	"path/filepath"
 	"sort"
 	"strings"
+	"syscall"
 	"time"
+	"unsafe"
 
 	"github.com/luthersystems/elps/lisp"
 )
@@ -301,12 +301,12 @@ type chainStep struct{ loc, from string }
 // chainSteps: the loads a file performs when evaluated, in order (from = the
 // file whose text contains the load-file call, "" = the file itself).
 var chainSteps = map[string][]chainStep{
-	"root/a/chain.lisp":     {{"b/f2.lisp", ""}},
-	"root/a/chain-up.lisp":  {{"../f0.lisp", ""}},
-	"root/a/chain-out.lisp": {{"../../outside/s0.lisp", ""}},
-	"root/a/chain2.lisp":    {{"chain.lisp", ""}},
-	"root/call.lisp":        {{"a/defs.lisp", ""}, {"f1.lisp", "root/a/defs.lisp"}},
-	"root/a/b/deep.lisp":    {{"../../../outside/f2.lisp", ""}},
+	"root/a/chain.lisp":      {{"b/f2.lisp", ""}},
+	"root/a/chain-up.lisp":   {{"../f0.lisp", ""}},
+	"root/a/chain-out.lisp":  {{"../../outside/s0.lisp", ""}},
+	"root/a/chain2.lisp":     {{"chain.lisp", ""}},
+	"root/call.lisp":         {{"a/defs.lisp", ""}, {"f1.lisp", "root/a/defs.lisp"}},
+	"root/a/b/deep.lisp":     {{"../../../outside/f2.lisp", ""}},
 	"root/a/chain-map.lisp":  {{"b/f2.lisp", ""}, {"f1.lisp", ""}},
 	"root/a/chain-fold.lisp": {{"b/f2.lisp", ""}, {"f1.lisp", ""}, {"../f0.lisp", ""}},
 	"root/chain-app.lisp":    {{"a/f1.lisp", ""}, {"f0.lisp", ""}},
